@@ -133,62 +133,106 @@ type expected struct {
 	desc string
 }
 
+type msg struct {
+	g        orb.Geometry
+	reconfig int // 0 none, 1 SetByteOrder, 2 SetSRID, 3 per-call srid, 4 new encoder after changing the package defaults
+	order    int
+	srid     int
+}
+
+// pipeline is one producer -> pipe -> consumer chain. A run has one or two of
+// them in the same kernel: two Encoders / two Decoders working at the same
+// time must not influence each other.
+type pipeline struct {
+	id              int
+	useEWKB         bool
+	decEWKB         bool
+	msgs            []msg
+	pipe            *simio.Pipe
+	acked           []expected
+	got             []expected
+	finalErr        error
+	producerCrashed bool
+}
+
 func runPipe(t *core.T, faults bool) {
 	s := t.Src
 	savedWO, savedEO, savedES := wkb.DefaultByteOrder, ewkb.DefaultByteOrder, ewkb.DefaultSRID
 	defer func() { wkb.DefaultByteOrder, ewkb.DefaultByteOrder, ewkb.DefaultSRID = savedWO, savedEO, savedES }()
 
-	useEWKB := s.Bool("ewkb-encoder")
-	decEWKB := s.Bool("ewkb-decoder")
-	capacity := []int{4096, 64, 16, 3, 1}[s.Pick([]int{3, 2, 2, 1, 1}, "cap")]
-	var pf simio.PipeFaults
-	pf.R = simio.DrawReaderFaults(s)
 	opts := gen.DefaultOpts()
 	opts.MaxPoints = 8
 	opts.MaxDepth = 3
-
-	type msg struct {
-		g        orb.Geometry
-		reconfig int // 0 none, 1 SetByteOrder, 2 SetSRID, 3 per-call srid, 4 new encoder after changing the package defaults
-		order    int
-		srid     int
+	np := 1 + s.Pick([]int{3, 1}, "pipelines")
+	var pls []*pipeline
+	type cfg struct {
+		capacity int
+		pf       simio.PipeFaults
 	}
-	var msgs []msg
-	s.Repeat(0, 3, 8, "msg", func(int) {
-		var x msg
-		x.reconfig = s.Pick([]int{4, 2, 2, 2, 1}, "reconfig")
-		x.order = s.Intn(2, "order")
-		if s.Chance(1, 5, "srid0") {
-			x.srid = 0
-		} else {
-			x.srid = drawSRID(s)
-		}
-		x.g = gen.Geometry(s, opts)
-		msgs = append(msgs, x)
-	})
+	var cfgs []cfg
 	totalWrites := 0
-	for _, x := range msgs {
-		totalWrites += 3 + countPoints(x.g)
-	}
-	if faults {
-		switch s.Pick([]int{2, 3, 2, 2}, "faultkind") {
-		case 1:
-			pf.WriteErrAt = 1 + s.Intn(totalWrites+2, "write-err-at")
-		case 2:
-			pf.DiskFull = s.Intn(totalWrites*16+16, "disk-full-at")
-		case 3:
-			pf.R.ErrAt = 1 + s.Intn(totalWrites*2+4, "read-err-at")
+	for i := 0; i < np; i++ {
+		s.Begin("pipeline")
+		pl := &pipeline{id: i, useEWKB: s.Bool("ewkb-encoder"), decEWKB: s.Bool("ewkb-decoder")}
+		c := cfg{capacity: []int{4096, 64, 16, 3, 1}[s.Pick([]int{3, 2, 2, 1, 1}, "cap")]}
+		c.pf.R = simio.DrawReaderFaults(s)
+		s.Repeat(0, 3, 8, "msg", func(int) {
+			var x msg
+			x.reconfig = s.Pick([]int{4, 2, 2, 2, 1}, "reconfig")
+			x.order = s.Intn(2, "order")
+			if s.Chance(1, 5, "srid0") {
+				x.srid = 0
+			} else {
+				x.srid = drawSRID(s)
+			}
+			x.g = gen.Geometry(s, opts)
+			pl.msgs = append(pl.msgs, x)
+		})
+		w := 0
+		for _, x := range pl.msgs {
+			w += 3 + countPoints(x.g)
 		}
+		totalWrites += w
+		if faults {
+			switch s.Pick([]int{2, 3, 2, 2}, "faultkind") {
+			case 1:
+				c.pf.WriteErrAt = 1 + s.Intn(w+2, "write-err-at")
+			case 2:
+				c.pf.DiskFull = s.Intn(w*16+16, "disk-full-at")
+			case 3:
+				c.pf.R.ErrAt = 1 + s.Intn(w*2+4, "read-err-at")
+			}
+		}
+		s.End()
+		t.Logf("pipeline %d: cap=%d encoder=%s decoder=%s faults=%+v msgs=%d", i, c.capacity, kindName(pl.useEWKB), kindName(pl.decEWKB), c.pf, len(pl.msgs))
+		pls = append(pls, pl)
+		cfgs = append(cfgs, c)
 	}
-	t.Logf("pipe cap=%d encoder=%s decoder=%s faults=%+v msgs=%d", capacity, kindName(useEWKB), kindName(decEWKB), pf, len(msgs))
 
 	k := kernel.New(t, int64(totalWrites*3+8))
 	k.MaxSteps = int64(totalWrites*40 + 10000)
-	pipe := simio.NewPipe(k, t, capacity, pf)
+	for i, pl := range pls {
+		pl.pipe = simio.NewPipe(k, t, cfgs[i].capacity, cfgs[i].pf)
+		pl.start(t, k)
+	}
+	k.Run()
+	if t.Failed() {
+		return
+	}
+	if k.AbortWhy != "" {
+		t.Violate("liveness", "pipe", "", "simulation aborted: %s", k.AbortWhy)
+		return
+	}
+	for _, pl := range pls {
+		pl.verify(t)
+	}
+}
 
-	var acked []expected
-	producerCrashed := false
-	k.Go("producer", func(task *kernel.Task) {
+func (pl *pipeline) start(t *core.T, k *kernel.Kernel) {
+	pipe := pl.pipe
+	useEWKB, decEWKB := pl.useEWKB, pl.decEWKB
+	tag := fmt.Sprintf("p%d", pl.id)
+	k.Go("producer"+tag, func(task *kernel.Task) {
 		defer pipe.Close()
 		var we *wkb.Encoder
 		var ee *ewkb.Encoder
@@ -202,7 +246,7 @@ func runPipe(t *core.T, faults bool) {
 			}
 		}
 		newEnc()
-		for i, x := range msgs {
+		for i, x := range pl.msgs {
 			effSRID := encSRID
 			perCall := false
 			switch x.reconfig {
@@ -212,13 +256,13 @@ func runPipe(t *core.T, faults bool) {
 				} else {
 					we.SetByteOrder(orders[x.order])
 				}
-				t.Logf("producer: SetByteOrder(%s)", orderNames[x.order])
+				t.Logf("%s producer: SetByteOrder(%s)", tag, orderNames[x.order])
 			case 2:
 				if useEWKB {
 					ee.SetSRID(x.srid)
 					encSRID = x.srid
 					effSRID = x.srid
-					t.Logf("producer: SetSRID(%d)", x.srid)
+					t.Logf("%s producer: SetSRID(%d)", tag, x.srid)
 				}
 			case 3:
 				if useEWKB {
@@ -233,7 +277,7 @@ func runPipe(t *core.T, faults bool) {
 				}
 				newEnc()
 				effSRID = encSRID
-				t.Logf("producer: defaults set to %s/%d, new encoder", orderNames[x.order], ewkb.DefaultSRID)
+				t.Logf("%s producer: defaults set to %s/%d, new encoder", tag, orderNames[x.order], ewkb.DefaultSRID)
 			}
 			if !useEWKB {
 				effSRID = 0
@@ -256,7 +300,7 @@ func runPipe(t *core.T, faults bool) {
 				return
 			}
 			failed := pipe.WriteFailures > faultsBefore
-			t.Logf("producer: Encode #%d %s srid=%d -> err=%v (%d writes)", i, gen.Describe(x.g), effSRID, err, pipe.Writes-writesBefore)
+			t.Logf("%s producer: Encode #%d %s srid=%d -> err=%v (%d writes)", tag, i, gen.Describe(x.g), effSRID, err, pipe.Writes-writesBefore)
 			if err != nil && !failed {
 				t.Violate("encode-error", "Encoder.Encode", "", "Encode(%s) returned %v although every Write succeeded", gen.Describe(x.g), err)
 				return
@@ -266,7 +310,7 @@ func runPipe(t *core.T, faults bool) {
 				return
 			}
 			if err != nil {
-				producerCrashed = true
+				pl.producerCrashed = true
 				return // crash: nothing after the failed write reaches the pipe
 			}
 			if !hasBytes {
@@ -276,15 +320,13 @@ func runPipe(t *core.T, faults bool) {
 				}
 				continue
 			}
-			acked = append(acked, expected{g: norm, srid: effSRID, desc: gen.Describe(x.g)})
+			pl.acked = append(pl.acked, expected{g: norm, srid: effSRID, desc: gen.Describe(x.g)})
 			t.Op()
 			t.State(fmt.Sprintf("%s/%s/%v/%v/%d", shape(norm), sridClass(effSRID), useEWKB, decEWKB, x.reconfig))
 		}
 	})
 
-	var got []expected
-	var finalErr error
-	k.Go("consumer", func(task *kernel.Task) {
+	k.Go("consumer"+tag, func(task *kernel.Task) {
 		defer pipe.CloseRead()
 		var wd *wkb.Decoder
 		var ed *ewkb.Decoder
@@ -312,52 +354,47 @@ func runPipe(t *core.T, faults bool) {
 				t.Violate("liveness", "Decoder.Decode", "", "Decode used %d Reads for %d bytes and %d empty reads", pipe.ReadsThisOp, pipe.BytesThisOp, pipe.StuttersThisOp)
 			}
 			if err != nil {
-				finalErr = err
-				t.Logf("consumer: Decode -> error %v", err)
+				pl.finalErr = err
+				t.Logf("%s consumer: Decode -> error %v", tag, err)
 				return
 			}
-			t.Logf("consumer: Decode -> %s srid=%d", gen.Describe(g), srid)
-			got = append(got, expected{g: g, srid: srid})
+			t.Logf("%s consumer: Decode -> %s srid=%d", tag, gen.Describe(g), srid)
+			pl.got = append(pl.got, expected{g: g, srid: srid})
 			t.Op()
 		}
-		finalErr = errors.New("consumer gave up after 64 messages")
+		pl.finalErr = errors.New("consumer gave up after 64 messages")
 	})
-	k.Run()
-	if t.Failed() {
-		return
-	}
-	if k.AbortWhy != "" {
-		t.Violate("liveness", "pipe", "", "simulation aborted: %s", k.AbortWhy)
-		return
-	}
+}
 
-	readErr := t.Out.Faults["read_err"] > 0
-	// in order, exactly once, bit-identical
+// verify: in order, exactly once, bit-identical.
+func (pl *pipeline) verify(t *core.T) {
+	acked, got, finalErr, decEWKB := pl.acked, pl.got, pl.finalErr, pl.decEWKB
+	readErr := pl.pipe.ReadErrFired
 	for i, r := range got {
 		if i >= len(acked) {
-			t.Violate("invented-message", "Decoder.Decode", "", "the consumer decoded %d messages, only %d were acknowledged; extra: %s", len(got), len(acked), gen.Describe(r.g))
+			t.Violate("invented-message", "Decoder.Decode", "", "pipeline %d: the consumer decoded %d messages, only %d were acknowledged; extra: %s", pl.id, len(got), len(acked), gen.Describe(r.g))
 			return
 		}
 		if !m.Equal(r.g, acked[i].g) {
-			t.Violate("stream-roundtrip", "Decoder.Decode", "", "message %d: encoded %s, decoded %s", i, acked[i].desc, gen.Describe(r.g))
+			t.Violate("stream-roundtrip", "Decoder.Decode", "", "pipeline %d message %d: encoded %s, decoded %s", pl.id, i, acked[i].desc, gen.Describe(r.g))
 			return
 		}
 		if decEWKB && r.srid != acked[i].srid {
-			t.Violate("stream-srid", "Decoder.Decode", "", "message %d (%s): written srid %d, decoded srid %d", i, acked[i].desc, acked[i].srid, r.srid)
+			t.Violate("stream-srid", "Decoder.Decode", "", "pipeline %d message %d (%s): written srid %d, decoded srid %d", pl.id, i, acked[i].desc, acked[i].srid, r.srid)
 			return
 		}
 	}
 	if finalErr == nil {
-		t.Violate("stream-end", "Decoder.Decode", "", "the consumer stopped without an error")
+		t.Violate("stream-end", "Decoder.Decode", "", "pipeline %d: the consumer stopped without an error", pl.id)
 		return
 	}
 	if !readErr {
 		if len(got) != len(acked) {
-			t.Violate("lost-message", "Decoder.Decode", "", "%d messages were acknowledged, the consumer decoded %d and then got %v", len(acked), len(got), finalErr)
+			t.Violate("lost-message", "Decoder.Decode", "", "pipeline %d: %d messages were acknowledged, the consumer decoded %d and then got %v", pl.id, len(acked), len(got), finalErr)
 			return
 		}
-		if !producerCrashed && finalErr != io.EOF {
-			t.Violate("stream-end", "Decoder.Decode", "", "after a complete stream Decode returned %v, want io.EOF", finalErr)
+		if !pl.producerCrashed && finalErr != io.EOF {
+			t.Violate("stream-end", "Decoder.Decode", "", "pipeline %d: after a complete stream Decode returned %v, want io.EOF", pl.id, finalErr)
 			return
 		}
 	}
@@ -691,6 +728,56 @@ func RunPaths(t *core.T) {
 			}
 			t.Op()
 		}
+	}
+	if !t.Failed() && s.Chance(1, 2, "reuse?") {
+		scannerReuse(t, g)
+	}
+}
+
+// scannerReuse: one scanner object scans two different rows in a row; the
+// second result must be the second row's value (no state kept between scans).
+func scannerReuse(t *core.T, first orb.Geometry) {
+	s := t.Src
+	s.Begin("reuse")
+	defer s.End()
+	o := gen.DefaultOpts()
+	o.TopNil = false
+	second := gen.Geometry(s, o)
+	d := s.Intn(m.NumDest, "dest")
+	kind := s.Intn(2, "scanner")
+	db := simdb.DB()
+	dst := m.NewDest(d)
+	sc := newScanner(kind, dst)
+	api := []string{"wkb.Scanner", "ewkb.Scanner"}[kind] + "(reused," + m.DestNames[d] + ")"
+	for i, g := range []orb.Geometry{first, second} {
+		norm, ok := m.Normalise(g)
+		if !ok {
+			return
+		}
+		data, err := ewkb.Marshal(g, 0)
+		if err != nil || data == nil {
+			return
+		}
+		simdb.S = simdb.State{Cell: data, HasCell: true, Framing: s.Intn(4, "framing")}
+		var serr error
+		if t.Guard(api, func() { serr = db.QueryRow("SELECT g FROM t").Scan(sc) }) {
+			return
+		}
+		want, wrongKind := m.Coerce(d, norm)
+		sg, _, _ := scanned(sc)
+		t.Logf("%s row %d %s -> %s err=%v", api, i, gen.Describe(norm), gen.Describe(sg), serr)
+		if wrongKind {
+			if !errors.Is(serr, wkb.ErrIncorrectGeometry) && !errors.Is(serr, ewkb.ErrIncorrectGeometry) {
+				t.Violate("coercion-error", api, "", "row %d: scanning %s into %s must fail with the incorrect-geometry error, got (%s, %v)", i, gen.Describe(norm), m.DestNames[d], gen.Describe(sg), serr)
+				return
+			}
+			continue
+		}
+		if serr != nil || !m.Equal(sg, want) || (dst != nil && !m.Equal(m.DestValue(dst), want)) {
+			t.Violate("scan-reuse", api, "", "row %d of a reused scanner: value %s, want %s, scanner.Geometry %s, destination %s, err %v", i, gen.Describe(norm), gen.Describe(want), gen.Describe(sg), gen.Describe(m.DestValue(dst)), serr)
+			return
+		}
+		t.Op()
 	}
 }
 
